@@ -58,6 +58,8 @@ type inst struct {
 	wcalls     int
 	mon        uint64
 	deliveredB []string // second diode writer of the fatal2 scenarios
+	called     int      // Writes called so far
+	maxOut     int      // largest number of messages ever outstanding (written, delivery not begun)
 }
 
 type recWriterB struct{ in *inst }
@@ -157,6 +159,12 @@ func (in *inst) Body() {
 				}
 				clock++
 				in.callStep[m] = clock
+				// outstanding = Writes called so far (this one included) minus deliveries that have begun
+				in.called++
+				if out := in.called - len(in.delivered); out > in.maxOut {
+					in.maxOut = out
+				}
+				in.bump(8+uint64(in.maxOut)*16, m) // the oracle depends on it, so the state key must too
 				n, err := dw.Write(buf)
 				clock++
 				in.retStep[m] = clock
@@ -360,6 +368,15 @@ func (in *inst) Check(res *mcrt.Result) []explore.Violation {
 		}
 	}
 
+	// "while fewer messages than the ring size are outstanding none may be dropped": if at no point more
+	// than N messages were written-but-not-yet-taken, the ring was never lapped
+	neverFull := in.maxOut <= p.N && p.End != "fatal" && p.End != "fatal2"
+	if neverFull && !roomy {
+		if collisions > 0 || sumAlerts > 0 {
+			add("C11", "", "at most %d messages were ever outstanding in a ring of %d, yet collisions=%d alerts=%v", in.maxOut, p.N, collisions, in.alerts)
+		}
+	}
+
 	// ---- classification helpers (known findings) ----
 	cl := in.claims(res)
 	r := uint64(len(in.delivered) + sumAlerts) // == consumer read index
@@ -407,7 +424,7 @@ func (in *inst) Check(res *mcrt.Result) []explore.Violation {
 		} else if collisions == 0 && len(in.delivered)+sumAlerts != len(in.written) {
 			add("C11", "", "accounting: no collision but delivered(%d)+alerts(%v) != written(%d)", len(in.delivered), in.alerts, len(in.written))
 		}
-		if roomy && len(in.delivered) != len(in.written) {
+		if (roomy || neverFull) && len(in.delivered) != len(in.written) {
 			add("C11", holeSig, "ring never full (%d messages, size %d) yet only %d delivered before Close returned", total, p.N, len(in.delivered))
 		}
 	}
